@@ -118,6 +118,9 @@ func (c *Ctx) Inv() *Inv {
 				}
 			}
 		}
+		if ct.Iface == nil {
+			continue // a helper struct that merely holds fields (a sort adapter, a builder): no registered outer value, not a container
+		}
 		iv.Conts = append(iv.Conts, ct)
 	}
 	if iv.Field != nil {
